@@ -37,7 +37,17 @@ pub proof fn lemma_ascii_str(s: &str)
     }
 }
 
-pub open spec fn is_ascii_chars_(s: Seq<char>) -> bool { is_ascii_chars(s) }
+/// opaque alias of `is_ascii_chars`: facts about *slices* are stated with it so that the solver does not
+/// instantiate the per-character quantifier on every derived sub-string (measured: exponential blow-up otherwise)
+#[verifier::opaque]
+pub open spec fn asc(s: Seq<char>) -> bool { is_ascii_chars(s) }
+pub proof fn lemma_asc(s: Seq<char>)
+    ensures asc(s) == is_ascii_chars(s)
+{ reveal(asc); }
+pub broadcast proof fn b_asc_intro(s: Seq<char>)
+    requires #[trigger] is_ascii_chars(s)
+    ensures asc(s)
+{ reveal(asc); }
 
 /// slicing an ASCII string on bytes is slicing on chars
 pub proof fn lemma_slice_ascii(s: &str, a: int, b: int, r: &str)
@@ -87,28 +97,32 @@ pub proof fn lemma_all_sub(s: Seq<char>, a: int, b: int, p: spec_fn(char) -> boo
 
 // broadcast forms (proved from the lemmas above) so that extracted code needs no per-site hints
 pub broadcast proof fn b_slice_ok_ascii(s: &str, a: int, b: int)
-    requires is_ascii_chars(s@), 0 <= a <= b <= s@.len()
+    requires asc(s@), 0 <= a <= b <= s@.len()
     ensures #[trigger] slice_ok(s, a, b)
 {
+    reveal(asc);
     lemma_ascii_str(s);
 }
 pub broadcast proof fn b_slice_ascii(s: &str, a: int, b: int, r: &str)
-    requires #[trigger] is_slice(s, a, b, r), is_ascii_chars(s@), 0 <= a <= b <= s@.len()
-    ensures r@ == s@.subrange(a, b), is_ascii_chars(r@), r.spec_bytes().len() == b - a
+    requires #[trigger] is_slice(s, a, b, r), asc(s@), 0 <= a <= b <= s@.len()
+    ensures r@ == s@.subrange(a, b), asc(r@), r.spec_bytes().len() == b - a
 {
+    reveal(asc);
     lemma_slice_ascii(s, a, b, r);
 }
 pub broadcast proof fn b_ascii_len(s: &str)
-    requires #[trigger] is_ascii_chars(s@)
+    requires #[trigger] asc(s@)
     ensures s.spec_bytes().len() == s@.len()
 {
+    reveal(asc);
     lemma_ascii_str(s);
 }
 /// in an ASCII string byte offsets and char indices coincide
 pub broadcast proof fn b_ascii_boff(s: Seq<char>, i: int)
-    requires is_ascii_chars(s), 0 <= i <= s.len()
+    requires asc(s), 0 <= i <= s.len()
     ensures #[trigger] boff(s, i) == i
 {
+    reveal(asc);
     let t = s.subrange(0, i);
     assert(is_ascii_chars(t)) by {
         assert forall|k: int| 0 <= k < t.len() implies (#[trigger] t[k] as u32) < 128 by { assert(t[k] == s[k]); }
@@ -116,13 +130,14 @@ pub broadcast proof fn b_ascii_boff(s: Seq<char>, i: int)
     is_ascii_chars_encode_utf8(t);
 }
 pub broadcast proof fn b_ascii_cidx(s: Seq<char>, b: int)
-    requires is_ascii_chars(s), 0 <= b <= s.len()
+    requires asc(s), 0 <= b <= s.len()
     ensures #[trigger] cidx(s, b) == b
 {
+    reveal(asc);
     b_ascii_boff(s, b);
     axiom_cidx_boff(s, b);
 }
-pub broadcast group group_lem { b_slice_ok_ascii, b_slice_ascii, b_ascii_len, b_ascii_boff, b_ascii_cidx }
+pub broadcast group group_lem { b_asc_intro, b_slice_ok_ascii, b_slice_ascii, b_ascii_len, b_ascii_boff, b_ascii_cidx }
 
 // ------------------------------------------------------------------ digit strings
 pub proof fn lemma_digits_val_1(s: Seq<char>)
